@@ -274,6 +274,31 @@ func walkAsync(g *verifier.Graph, c *x509.Certificate, size int, pc pacing, seed
 	}
 }
 
+// report records a violation, at most 4 per class key (the driver keeps the
+// first 50 violations of a run; the two recorded findings must not crowd out others)
+var reported = map[string]int{}
+
+func report(c *vh.Ctx, key, desc, stream string, in interface{}) {
+	reported[key]++
+	if reported[key] > 4 {
+		c.Stat("suppressed."+key, 1)
+		return
+	}
+	c.Violation(key, desc, stream, in)
+}
+
+// walkSync runs WalkChains with a deadline (a walk that never closes its channel would hang the harness)
+func walkSync(g *verifier.Graph, c *x509.Certificate) ([]x509.CertificateChain, bool) {
+	done := make(chan []x509.CertificateChain, 1)
+	go func() { done <- g.WalkChains(c) }()
+	select {
+	case r := <-done:
+		return r, true
+	case <-time.After(20 * time.Second):
+		return nil, false
+	}
+}
+
 // ---------------------------------------------------------------- one universe
 
 type stats struct{ chains, walks, maxLen int }
@@ -296,7 +321,11 @@ func runUniverse(c *vh.Ctx, in input, withAsync bool) {
 	desc := func(s int) input { return input{Specs: in.Specs, Ops: in.Ops, Starts: []int{s}} }
 	for _, s := range starts {
 		cert := p.Parse(s)
-		got := g.WalkChains(cert)
+		got, finished := walkSync(g, cert)
+		if !finished {
+			report(c, "walk-hangs", fmt.Sprintf("WalkChains from %d does not return", s), "case", desc(s))
+			continue
+		}
 		var gotC []chain
 		for _, ch := range got {
 			gotC = append(gotC, toChain(p, ch))
@@ -317,10 +346,10 @@ func runUniverse(c *vh.Ctx, in input, withAsync bool) {
 		seen := map[string]bool{}
 		for i, ch := range got {
 			if k, d := checkChain(ref, cert, ch); k != "" {
-				c.Violation(k, fmt.Sprintf("walk from %d, chain %v: %s", s, gotC[i], d), "case", desc(s))
+				report(c, k, fmt.Sprintf("walk from %d, chain %v: %s", s, gotC[i], d), "case", desc(s))
 			}
 			if seen[gotC[i].key()] {
-				c.Violation("duplicate-chain", fmt.Sprintf("walk from %d returns chain %v twice", s, gotC[i]), "case", desc(s))
+				report(c, "duplicate-chain", fmt.Sprintf("walk from %d returns chain %v twice", s, gotC[i]), "case", desc(s))
 			}
 			seen[gotC[i].key()] = true
 			if len(ch) >= 3 {
@@ -338,12 +367,12 @@ func runUniverse(c *vh.Ctx, in input, withAsync bool) {
 			wantKeys[ch.key()] = true
 			if !seen[ch.key()] {
 				k := classifyMissing(path)
-				c.Violation(k, fmt.Sprintf("walk from %d does not return the permitted chain %v", s, ch), "case", desc(s))
+				report(c, k, fmt.Sprintf("walk from %d does not return the permitted chain %v", s, ch), "case", desc(s))
 			}
 		}
 		for _, ch := range gotC {
 			if !wantKeys[ch.key()] {
-				c.Violation("extra-chain", fmt.Sprintf("walk from %d returns %v, which is not a permitted path", s, ch), "case", desc(s))
+				report(c, "extra-chain", fmt.Sprintf("walk from %d returns %v, which is not a permitted path", s, ch), "case", desc(s))
 			}
 		}
 		// oracle 3: async delivery
@@ -354,7 +383,7 @@ func runUniverse(c *vh.Ctx, in input, withAsync bool) {
 				res, ok := walkAsync(g, p.Parse(s), size, pc, c.U64())
 				c.Eval("")
 				if !ok {
-					c.Violation("async-not-closed", fmt.Sprintf("walk from %d, channel size %d: channel not closed after the consumer drained it", s, size), "case", desc(s))
+					report(c, "async-not-closed", fmt.Sprintf("walk from %d, channel size %d: channel not closed after the consumer drained it", s, size), "case", desc(s))
 					continue
 				}
 				var rc []chain
@@ -362,7 +391,7 @@ func runUniverse(c *vh.Ctx, in input, withAsync bool) {
 					rc = append(rc, toChain(p, ch))
 				}
 				if a := strings.Join(sortedKeys(rc), "|"); a != base {
-					c.Violation("async-differs", fmt.Sprintf("walk from %d, channel size %d, pacing %d delivers %s, WalkChains %s", s, size, pc, a, base), "case", desc(s))
+					report(c, "async-differs", fmt.Sprintf("walk from %d, channel size %d, pacing %d delivers %s, WalkChains %s", s, size, pc, a, base), "case", desc(s))
 				}
 			}
 		}
@@ -424,6 +453,7 @@ func opsFor(c *vh.Ctx, specs []pkig.CertSpec, mode int) []opSpec {
 // extra structured universes for the walk
 func walkFamilies() []pkig.Family {
 	mpl := func(s pkig.CertSpec, n int) pkig.CertSpec { s.MPL = n; return s }
+	ser := func(s pkig.CertSpec, n int) pkig.CertSpec { s.Ser = n; return s }
 	fs := []pkig.Family{
 		// depth boundary: chains of 8, 9, 10 and 11 certificates
 		{Name: "deep8", Specs: pkig.DeepChain(8)},
@@ -437,6 +467,10 @@ func walkFamilies() []pkig.Family {
 		{Name: "ring", Specs: []pkig.CertSpec{pkig.Root(0, 0), pkig.CA(1, 1, 0, 0), pkig.CA(1, 1, 2, 2), pkig.CA(2, 2, 4, 4), pkig.CA(4, 4, 1, 1), pkig.CA(2, 2, 1, 1), pkig.Leaf(3, 5, 4, 4), pkig.Leaf(6, 6, 2, 2)}},
 		// cross-certificate used as a trust anchor whose issuer is earlier in the chain
 		{Name: "anchor-cross", Specs: []pkig.CertSpec{pkig.CA(1, 1, 2, 2), pkig.CA(2, 2, 1, 1), pkig.Leaf(3, 4, 1, 1)}},
+		// the same root key with two root certificates (serials 0 and 1) above chains of 3 and of 6 certificates:
+		// two chains that differ only in their last element
+		{Name: "two-root-certs", Specs: []pkig.CertSpec{pkig.Root(0, 0), ser(pkig.Root(0, 0), 1), pkig.CA(1, 1, 0, 0), pkig.CA(2, 2, 1, 1), pkig.Leaf(3, 4, 2, 2)}},
+		{Name: "two-root-certs-deep", Specs: append(pkig.DeepChain(7), ser(pkig.Root(100, 100), 1), ser(pkig.Root(100, 100), 2))},
 		// two roots, diamond
 		{Name: "diamond", Specs: []pkig.CertSpec{pkig.Root(0, 0), pkig.Root(9, 9), pkig.CA(1, 1, 0, 0), pkig.CA(2, 2, 0, 0), pkig.CA(2, 2, 9, 9), pkig.CA(4, 4, 1, 1), pkig.CA(4, 4, 2, 2), pkig.Leaf(3, 5, 4, 4)}},
 	}
@@ -488,7 +522,8 @@ func genRace(c *vh.Ctx) {
 		var base [][]string
 		for i := range p.Certs {
 			var cs []chain
-			for _, ch := range g.WalkChains(p.Parse(i)) {
+			res, _ := walkSync(g, p.Parse(i))
+			for _, ch := range res {
 				cs = append(cs, toChain(p, ch))
 			}
 			base = append(base, sortedKeys(cs))
@@ -510,10 +545,10 @@ func genRace(c *vh.Ctx) {
 					mu.Lock()
 					c.Eval("")
 					if !ok {
-						c.Violation("async-not-closed", fmt.Sprintf("concurrent walk from %d, channel size %d: channel not closed", i, size), "race",
+						report(c, "async-not-closed", fmt.Sprintf("concurrent walk from %d, channel size %d: channel not closed", i, size), "race",
 							input{Specs: f.Specs, Ops: ops, Starts: []int{i}})
 					} else if a, b := strings.Join(sortedKeys(rc), "|"), strings.Join(base[i], "|"); a != b {
-						c.Violation("async-differs", fmt.Sprintf("concurrent walk from %d, channel size %d delivers %s, WalkChains %s", i, size, a, b), "race",
+						report(c, "async-differs", fmt.Sprintf("concurrent walk from %d, channel size %d delivers %s, WalkChains %s", i, size, a, b), "race",
 							input{Specs: f.Specs, Ops: ops, Starts: []int{i}})
 					}
 					mu.Unlock()
